@@ -7,7 +7,9 @@ from unparse import unparse, strip_marks
 
 
 EDGE = [('edge:only-function-definitions', 'function f(a) -> a + 1; function g() -> f(1)'), ('edge:empty-program', ''), ('edge:comment-only', '/* nothing */ // at all\n'),
-        ('edge:ends-with-function', 'print("a\\n"); function f() -> 1'), ('edge:null-only', 'null'), ('edge:begin-end', 'begin end')]
+        ('edge:ends-with-function', 'print("a\\n"); function f() -> 1'), ('edge:null-only', 'null'), ('edge:begin-end', 'begin end'),
+        ('edge:array-sizes-around-65536', 'let a = array(65536, 7); a[65535] <- 1; let b = array(65535, 2); let c = array(65537, null); print("~ ~ ~ ~\\n", a[65535], a[0], b[65534], c[65536])'),
+        ('edge:field-and-method-of-one-name', 'let o = object begin let value = 42; function value() -> this.value; function m() -> 1; let m = 2 end; print("~ ~ ~ ~ ~\\n", o.value, o.value(), o.m, o.m(), o)')]
 
 
 def _limit_programs():
